@@ -282,7 +282,7 @@ package stun
 //@   safety C07
 //@   props C07
 //@   requires a != nil && m != nil
-//@   requires region(a.IP) != region(m.Raw)
+//@   requires region(a.IP) != region(m.Raw) && region(a.IP) != region(AttrVal(m, 0x0020))
 //@   assigns a.IP, a.Port, mem(a.IP)
 //@   allocates
 //@   ensures unchanged(m.Raw)
@@ -316,7 +316,7 @@ package stun
 //@   safety C07
 //@   props C07
 //@   requires a != nil && m != nil
-//@   requires region(a.IP) != region(m.Raw)
+//@   requires region(a.IP) != region(m.Raw) && region(a.IP) != region(AttrVal(m, 0x0001))
 //@   assigns a.IP, a.Port, mem(a.IP)
 //@   allocates
 //@   ensures unchanged(m.Raw)
@@ -325,7 +325,7 @@ package stun
 //@   safety C07
 //@   props C07
 //@   requires s != nil && m != nil
-//@   requires region(s.IP) != region(m.Raw)
+//@   requires region(s.IP) != region(m.Raw) && region(s.IP) != region(AttrVal(m, 0x8023))
 //@   assigns s.IP, s.Port, mem(s.IP)
 //@   allocates
 //@   ensures unchanged(m.Raw)
@@ -334,7 +334,7 @@ package stun
 //@   safety C07
 //@   props C07
 //@   requires o != nil && m != nil
-//@   requires region(o.IP) != region(m.Raw)
+//@   requires region(o.IP) != region(m.Raw) && region(o.IP) != region(AttrVal(m, 0x802b))
 //@   assigns o.IP, o.Port, mem(o.IP)
 //@   allocates
 //@   ensures unchanged(m.Raw)
@@ -343,7 +343,7 @@ package stun
 //@   safety C07
 //@   props C07
 //@   requires o != nil && m != nil
-//@   requires region(o.IP) != region(m.Raw)
+//@   requires region(o.IP) != region(m.Raw) && region(o.IP) != region(AttrVal(m, 0x802C))
 //@   assigns o.IP, o.Port, mem(o.IP)
 //@   allocates
 //@   ensures unchanged(m.Raw)
@@ -925,3 +925,97 @@ package stun
 //@   ensures AgentInv(a) && NoEvent() && SameTable(a) && a.closed == old(a.closed)
 //@   ensures old(a.closed) ==> result == ErrAgentClosed && a.handler == old(a.handler)
 //@   ensures !old(a.closed) ==> result == nil && a.handler == h
+
+//@ func NoopHandler
+//@   props C13
+//@   pure
+//@   allocates
+//@   ensures result != nil
+
+//@ func NewAgent
+//@   safety C13 C14
+//@   props C13 C14
+//@   assigns nothing
+//@   allocates
+//@   ensures result != nil && fresh(result) && !result.closed && result.handler != nil && (h != nil ==> result.handler == h)
+//@   ensures region(result.transactions) != 0 && forallkey(k, !haskey(result.transactions, k))
+
+// Expired(a, k, t): k is registered with a deadline strictly before t
+//@ define Expired(a, k, t) = haskey(a.transactions, k) && a.transactions[k].deadline < t
+//@ define ExpiredOld(a, k, t) = old(haskey(a.transactions, k)) && old(a.transactions[k].deadline) < t
+//@ define TimeoutEvent(e) = gmap(ev_errt)[e] == errtag(ErrTransactionTimeOut) && gmap(ev_errv)[e] == errval(ErrTransactionTimeOut)
+
+//@ func (*Agent).Collect
+//@   safety C13 C14
+//@   props C13 C14
+//@   requires AgentInv(a) && a.closed || AgentInv(a) && a.handler != nil
+//@   assigns mem(a.transactions), gmap(held)[region(a)], ghost(ev_n), gmapa(ev_tid), gmap(ev_errt), gmap(ev_errv), gmap(ev_msg), gmap(ev_h)
+//@   allocates
+//@   ensures AgentInv(a) && a.closed == old(a.closed)
+//@   ensures old(a.closed) ==> result == ErrAgentClosed && SameTable(a) && NoEvent()
+//@   ensures !old(a.closed) ==> result == nil
+//@   ensures !old(a.closed) ==> forallkey(k, haskey(a.transactions, k) <==> (old(haskey(a.transactions, k)) && !old(Expired(a, k, gcTime))))
+//@   ensures !old(a.closed) ==> forallkey(k, haskey(a.transactions, k) ==> a.transactions[k].deadline == old(a.transactions[k].deadline))
+//@   ensures !old(a.closed) ==> ghost(ev_n) >= old(ghost(ev_n))
+//@   ensures !old(a.closed) ==> forall(e, old(ghost(ev_n)), ghost(ev_n), ExpiredOld(a, gmapa(ev_tid)[e], gcTime) && TimeoutEvent(e))
+//@   ensures !old(a.closed) ==> forall(e1, old(ghost(ev_n)), ghost(ev_n), forall(e2, e1 + 1, ghost(ev_n), gmapa(ev_tid)[e1] != gmapa(ev_tid)[e2]))
+//@   -- every expired id has an event (stated as the contrapositive: an id with no event in this call was not expired)
+//@   ensures !old(a.closed) ==> forallkey(k, forall(e, old(ghost(ev_n)), ghost(ev_n), gmapa(ev_tid)[e] != k) ==> !old(Expired(a, k, gcTime)))
+//@   ensures forall(e, 0, old(ghost(ev_n)), gmapa(ev_tid)[e] == old(gmapa(ev_tid)[e]) && gmap(ev_errt)[e] == old(gmap(ev_errt)[e]) && gmap(ev_errv)[e] == old(gmap(ev_errv)[e]))
+//@   assert forall(j, 0, len(toRemove), ExpiredOld(a, toRemove[j], gcTime))
+//@   assert forall(j1, 0, len(toRemove), forall(j2, j1 + 1, len(toRemove), toRemove[j1] != toRemove[j2]))
+//@   assert !old(a.closed) ==> forallkey(k, old(Expired(a, k, gcTime)) ==> exists(j, 0, len(toRemove), toRemove[j] == k))
+//@   assert !old(a.closed) ==> forallkey(k, haskey(a.transactions, k) ==> old(haskey(a.transactions, k)) && forall(j, 0, len(toRemove), toRemove[j] != k))
+//@   assert !old(a.closed) ==> forallkey(k, old(haskey(a.transactions, k)) && !haskey(a.transactions, k) ==> exists(j, 0, len(toRemove), toRemove[j] == k))
+//@   assert !old(a.closed) ==> ghost(ev_n) == old(ghost(ev_n)) + len(toRemove)
+//@   assert !old(a.closed) ==> forall(e, 0, len(toRemove), gmapa(ev_tid)[old(ghost(ev_n)) + e] == toRemove[e] && TimeoutEvent(old(ghost(ev_n)) + e))
+//@   assert !old(a.closed) ==> forallv(j, 0, len(toRemove), toRemove[j] == gmapa(ev_tid)[old(ghost(ev_n)) + j])
+//@   loop 0
+//@     invariant 0 <= rangepos && rangepos <= rangelen && len(toRemove) >= 0 && fresh(toRemove)
+//@     invariant forall(j, 0, len(toRemove), Expired(a, toRemove[j], gcTime) && 0 <= rangeidx(toRemove[j]) && rangeidx(toRemove[j]) < rangepos)
+//@     invariant forall(j1, 0, len(toRemove), forall(j2, j1 + 1, len(toRemove), rangeidx(toRemove[j1]) < rangeidx(toRemove[j2])))
+//@     invariant forall(i, 0, rangepos, Expired(a, rangeseq[i], gcTime) ==> exists(j, 0, len(toRemove), toRemove[j] == rangeseq[i]))
+//@     decreases rangelen - rangepos
+//@   loop 1
+//@     assigns mem(a.transactions)
+//@     invariant -1 <= rangeindex && rangeindex < len(toRemove) || len(toRemove) == 0 && rangeindex == -1
+//@     invariant forallkey(k, haskey(a.transactions, k) ==> (loopold(haskey(a.transactions, k)) && a.transactions[k].deadline == loopold(a.transactions[k].deadline) && a.transactions[k].id == k && forall(j, 0, rangeindex + 1, toRemove[j] != k)))
+//@     invariant forallkey(k, loopold(haskey(a.transactions, k)) && !haskey(a.transactions, k) ==> exists(j, 0, rangeindex + 1, toRemove[j] == k))
+//@     decreases len(toRemove) - rangeindex
+//@   loop 2
+//@     assigns event, ghost(ev_n), gmapa(ev_tid), gmap(ev_errt), gmap(ev_errv), gmap(ev_msg), gmap(ev_h)
+//@     invariant (-1 <= rangeindex && rangeindex < len(toRemove) || len(toRemove) == 0 && rangeindex == -1) && ghost(ev_n) == loopold(ghost(ev_n)) + rangeindex + 1
+//@     invariant event.Error == ErrTransactionTimeOut
+//@     invariant forall(e, 0, rangeindex + 1, gmapa(ev_tid)[loopold(ghost(ev_n)) + e] == toRemove[e] && TimeoutEvent(loopold(ghost(ev_n)) + e))
+//@     invariant forall(e, 0, loopold(ghost(ev_n)), gmapa(ev_tid)[e] == loopold(gmapa(ev_tid)[e]) && gmap(ev_errt)[e] == loopold(gmap(ev_errt)[e]) && gmap(ev_errv)[e] == loopold(gmap(ev_errv)[e]))
+//@     decreases len(toRemove) - rangeindex
+
+//@ define HadKey(a, k) = old(haskey(a.transactions, k))
+//@ define ClosedEvent(n) = gmap(ev_errt)[n] == errtag(ErrAgentClosed) && gmap(ev_errv)[n] == errval(ErrAgentClosed)
+
+//@ func (*Agent).Close
+//@   safety C13 C14
+//@   props C13 C14
+//@   callsunderlock
+//@   requires AgentInv(a) && a.closed || AgentInv(a) && a.handler != nil
+//@   assigns a.transactions, a.closed, a.handler, gmap(held)[region(a)], ghost(ev_n), gmapa(ev_tid), gmap(ev_errt), gmap(ev_errv), gmap(ev_msg), gmap(ev_h)
+//@   allocates
+//@   ensures AgentInv(a) && a.closed
+//@   ensures old(a.closed) ==> result == ErrAgentClosed && NoEvent()
+//@   ensures !old(a.closed) ==> result == nil && ghost(ev_n) >= old(ghost(ev_n))
+//@   ensures !old(a.closed) ==> forall(n, old(ghost(ev_n)), ghost(ev_n), HadKey(a, gmapa(ev_tid)[n]) && ClosedEvent(n))
+//@   ensures !old(a.closed) ==> forall(n1, old(ghost(ev_n)), ghost(ev_n), forall(n2, n1 + 1, ghost(ev_n), gmapa(ev_tid)[n1] != gmapa(ev_tid)[n2]))
+//@   ensures !old(a.closed) ==> forallkey(k, forall(n, old(ghost(ev_n)), ghost(ev_n), gmapa(ev_tid)[n] != k) ==> !old(haskey(a.transactions, k)))
+//@   ensures forall(n, 0, old(ghost(ev_n)), gmapa(ev_tid)[n] == old(gmapa(ev_tid)[n]) && gmap(ev_errt)[n] == old(gmap(ev_errt)[n]) && gmap(ev_errv)[n] == old(gmap(ev_errv)[n]))
+//@   assert !old(a.closed) ==> rangepos == rangelen && ghost(ev_n) == old(ghost(ev_n)) + rangelen
+//@   assert !old(a.closed) ==> forall(i, 0, rangelen, old(haskey(a.transactions, rangeseq[i])) && rangeidx(rangeseq[i]) == i)
+//@   assert !old(a.closed) ==> forallv(i, 0, rangelen, rangeseq[i] == gmapa(ev_tid)[old(ghost(ev_n)) + i])
+//@   assert !old(a.closed) ==> forall(n, old(ghost(ev_n)), ghost(ev_n), gmapa(ev_tid)[n] == rangeseq[n - old(ghost(ev_n))] && ClosedEvent(n))
+//@   assert !old(a.closed) ==> forallkey(k, old(haskey(a.transactions, k)) ==> 0 <= rangeidx(k) && rangeidx(k) < rangelen && rangeseq[rangeidx(k)] == k)
+//@   loop 0
+//@     assigns e, t, ghost(ev_n), gmapa(ev_tid), gmap(ev_errt), gmap(ev_errv), gmap(ev_msg), gmap(ev_h)
+//@     invariant 0 <= rangepos && rangepos <= rangelen && ghost(ev_n) == loopold(ghost(ev_n)) + rangepos && e.Error == ErrAgentClosed
+//@     invariant forallv(i, 0, rangepos, rangeseq[i] == gmapa(ev_tid)[loopold(ghost(ev_n)) + i])
+//@     invariant forall(n, loopold(ghost(ev_n)), ghost(ev_n), gmapa(ev_tid)[n] == rangeseq[n - loopold(ghost(ev_n))] && ClosedEvent(n))
+//@     invariant forall(n, 0, loopold(ghost(ev_n)), gmapa(ev_tid)[n] == loopold(gmapa(ev_tid)[n]) && gmap(ev_errt)[n] == loopold(gmap(ev_errt)[n]) && gmap(ev_errv)[n] == loopold(gmap(ev_errv)[n]))
+//@     decreases rangelen - rangepos
